@@ -16,10 +16,20 @@ fn docs(args: &[String]) {
     let n = arg_u64(args, "--n", 40);
     let max_objects = arg_u64(args, "--max-objects", 6) as usize;
     let max_revs = arg_u64(args, "--max-revs", 1) as usize;
+    let deep = arg_u64(args, "--deep", 0) == 1;
     let mut out = NdjsonOut::create(&arg(args, "--out").unwrap());
     let mut rng = Rng::new(seed ^ 0xC02);
     for i in 0..n {
         let mut doc = gen::random_document(&mut rng, max_objects, i % 3 != 0, false);
+        // (C08 file set) containers nested beyond the loader's documented limit next to ones exactly at the limit
+        if deep && i % 3 == 0 {
+            let mut nx = doc.objects.keys().map(|k| k.0).max().unwrap_or(0);
+            for d in [49usize, 55, 48, 48, 48, 47] {
+                nx += 1;
+                doc.objects.insert((nx, 0), gen::nested(d, d % 2 == 0, Object::Integer(d as i64)));
+            }
+            doc.max_id = nx;
+        }
         // indirect stream lengths: for some streams, Length becomes a reference to a new integer object
         let stream_ids: Vec<_> = doc.objects.iter().filter(|(_, o)| matches!(o, Object::Stream(_))).map(|(id, _)| *id).collect();
         let mut next = doc.objects.keys().map(|k| k.0).max().unwrap_or(0);
@@ -121,6 +131,8 @@ fn docs(args: &[String]) {
 }
 
 fn load(args: &[String]) {
+    // few worker threads: more history per thread (state leaking across loads shows up sooner)
+    let _ = rayon::ThreadPoolBuilder::new().num_threads(2).build_global();
     let cases = read_ndjson(&arg(args, "--in").unwrap());
     let mut out = NdjsonOut::create(&arg(args, "--out").unwrap());
     for (i, c) in cases.iter().enumerate() {
